@@ -45,19 +45,16 @@ def table_of(facts, chk, rule, prefix, which):
     r = facts.adts.get(BOP)
     if f is None or r is None:
         return None, None
-    val = {}
-    for n, p in f.r["dbg"]:
-        if len(p) == 1 and n in ("t1", "t2") and f.locals[p[0]].endswith("term::Term"):
-            val[p[0]] = n.upper()
-    if sorted(val.values()) != ["T1", "T2"]:
-        chk.lost(rule, "operand terms t1 / t2 of %s::compile_app2" % which)
+    # operand provenance by parameter position (no local names): 2nd / 3rd parameter are the left / right operand
+    if f.nargs < 3:
+        chk.lost(rule, "operand parameters of %s::compile_app2" % which)
         return None, None
     sws = sorted(shape.variant_switches(f, "ast::BinaryOp"), key=lambda s: -len(s[2]))
     if not sws:
         chk.lost(rule, "match on BinaryOp in %s::compile_app2" % which)
         return None, None
     b, scrut, arms, other = sws[0]
-    L = shape.Labels(f, None, lambda p: [val[p[0]]] if p[0] in val else [])
+    L = shape.Labels(f, None, None, param_labels={2: {"T1"}, 3: {"T2"}})
     out = {}
     for vi, tgt in sorted(arms.items()):
         vn = r["variants"][vi]["name"]
